@@ -139,13 +139,31 @@ def error_path(ctx, count):
 
 
 def search(ctx):
+    protected_through_runs(ctx)
     for data in arrangements(3, 5, ctx.rng):
         for kind in loaders.KINDS:
             one_case(ctx, kind, data, do_model=False)
 
 
+def protected_through_runs(ctx):
+    """'both marker lines and everything outside them are protected': also while a strategy works on the region
+    (every strategy, brace pairs and whitespace inside the protected text and on the marker lines themselves)"""
+    from . import c05
+    rng = ctx.rng
+    fl = [b"function setup() {\n}\n// DDBEGIN {\nif (x) {\n  \n}\na\n// DDEND }\nif (done) {\n\n}\n",
+          b"with (scope) { // DDBEGIN\nb\n{\n\n}\nc {\n} /* DDEND */\n{ \n }\n",
+          b"h {\r\nDDBEGIN\r\n{\r\n\r\n}\r\nDDEND }\r\n"]
+    for name, cfg in c05.STRATS:
+        for kind in ("line", "char", "symbol"):
+            for data in fl:
+                for p in (0.3, 1.0):
+                    seq = [rng.random() < p for _ in range(211)]
+                    c05.one(ctx, name, cfg, kind, data, seq, do_model=False)
+
+
 def run(ctx) -> int:
     proof = common.proof_stage(ctx.pid)
+    protected_through_runs(ctx)
     kf, kk = (3, 5) if ctx.thorough else (3, 4)
     for data in arrangements(kf, kk, ctx.rng, ctx.thorough):
         for kind in loaders.KINDS:
